@@ -67,6 +67,12 @@ def check(tier, seed):
         alpha = b'0159aAfFgG +-\r\n\t_xX.*$'
         bodies = [b'AA', b'AB', b'AK', b'GPTXT,01,01,02,0w', b'AQ', b'Az', b'GPRMC,1', b'\x01', b'' ] if tier == 'quick' else \
             [bytes([65, 65 ^ x]) for x in list(range(0, 20)) + [0x7f, 0xa5, 0xff]] + [b'GPTXT,01,01,02,0w', b'GPRMC,1', b'']
+        for body in bodies + [bytes([65, 65 ^ x]) for x in (0xab, 0xfd, 0xaf, 0xce, 0x1b, 0xd4)]:
+            x = 0
+            for ch in body:
+                x ^= ch
+            for h in (f'{x:02X}', f'{x:02x}', f'{x:02X}'[0] + f'{x:02x}'[1], f'{x:02x}'[0] + f'{x:02X}'[1]):
+                streams.append((b'$' + body + b'*' + h.encode() + b'\r\n' + good, 'case-mix'))
         for body in bodies:
             for c1 in alpha:
                 for c2 in alpha:
